@@ -1,6 +1,7 @@
 package main
 
 import (
+	"runtime/pprof"
 	"time"
 	"encoding/json"
 	"fmt"
@@ -18,6 +19,25 @@ import (
 )
 
 func probe(file string) {
+	if strings.HasPrefix(file, "pwprof") {
+		f, _ := os.Create("/tmp/c14.prof")
+		pprof.StartCPUProfile(f)
+		run := &pwRun{fs: &failSet{}, outcomes: map[string]int64{}, cache: pwCache}
+		t0 := time.Now()
+		for _, first := range []byte{0x0b, 0x0c, 0x08, 0x13, 0x41} {
+			b := []byte{first, 0, 0}
+			for x := 0; x < 256; x++ {
+				for y := 0; y < 256; y++ {
+					b[1], b[2] = byte(x), byte(y)
+					run.one(b, relevantCombos(b))
+				}
+			}
+			fmt.Println("prefix", first, time.Since(t0), run.n, run.calls, len(run.cache))
+		}
+		pprof.StopCPUProfile()
+		f.Close()
+		return
+	}
 	if file == "pwtime" {
 		run := &pwRun{fs: &failSet{}, outcomes: map[string]int64{}, cache: pwCache}
 		t0 := time.Now()
